@@ -135,7 +135,18 @@ def generate(rng, tier, mode="default"):
     # both allocator families; a list pair with different families (nodes copied by add_all are requested from the source's allocator)
     for ma, mb in (("libc", "libc"), ("conf", "libc"), ("libc", "conf")):
         out.append([hdr(ma, mb)] + build("a", [1, 2]) + build("b", [3]) + ["a to_array", "a copy_shallow", "b sort", "a remove_all", "b remove_first"] + ["END"])
-    out.append([hdr("conf", "libc")] + build("a", [1, 2]) + build("b", [3]) + ["a add_all", "a remove_all", "END"])
+    # copies made by add_all / add_all_at belong to the destination's family: the ledger must balance for every pair of families
+    for ma, mb in (("conf", "libc"), ("libc", "conf")):
+        for n in range(3):
+            for m in range(1, 4):
+                va, vb = avals(n), [20 + i for i in range(m)]
+                for op in ("a add_all", "a add_all_at 0", "a add_all_at %d" % n, "b add_all", "b add_all_at %d" % (m // 2)):
+                    out.append([hdr(ma, mb)] + build("a", va) + build("b", vb) + [op, "a remove_last", "b remove_first", "a remove_all", "b remove_all_cb"] + probe() + ["END"])
+                    for k in range(m + 1):
+                        out.append([hdr(ma, mb)] + build("a", va) + build("b", vb) + ["plan " + "1" * k + "0", op, "plan", "a remove_all"] + probe() + ["END"])
+                if n >= 1:
+                    out.append([hdr(ma, mb)] + build("a", va) + build("b", vb) + ["a zip n a5:6 n r", "a remove_all", "b remove_all"] + ["END"])
+    # splice hands nodes of the source's family to the destination: with different families the later free crosses (model and code agree)
     out.append([hdr("conf", "libc")] + build("a", [1, 2]) + build("b", [3]) + ["a splice", "a remove_all", "END"])
     # ---------------------------------------------------------------- random long histories
     n = 250 if quick else 4000
